@@ -70,6 +70,14 @@ class Runner(sched.SchedRunner):
             if inv.alive():
                 # what a terminal delivers: the signal goes to the whole foreground process group
                 try:
+                    for q in runner.session_pids(inv.proc.pid):
+                        try:
+                            with open("/proc/%d/stat" % q) as f:
+                                st_ = f.read()
+                            if int(st_[st_.rindex(")") + 2:].split()[2]) == inv.proc.pid:
+                                self.tl.doomed.add(q)
+                        except (OSError, ValueError):
+                            pass
                     os.killpg(inv.proc.pid, getattr(signal, "SIG" + self.abort["sig"]))
                     inv.signalled = self.abort["sig"]
                     self.aborted = True
